@@ -164,6 +164,81 @@ def fasta_bytes(records):
     return "".join(f">{r[0]}\n{r[1]}\n" for r in records).encode("ascii")
 
 
+_BAM_CODES = {c: i for i, c in enumerate("=ACMGRSVTWYHKDBN")}
+_BAM_LETTERS = "=ACMGRSVTWYHKDBN"
+BAM_HEADER_TEXT = b"@HD\tVN:1.6\tSO:unsorted\n"
+
+
+def bam_record_size(name, seq):
+    return 4 + 32 + len(name.encode()) + 1 + (len(seq) + 1) // 2 + len(seq)
+
+
+def bam_header_size():
+    return 4 + 4 + len(BAM_HEADER_TEXT) + 4
+
+
+def bam_bytes(records):
+    """Unaligned BAM (uncompressed stream; the caller wraps it in gzip members as BGZF does):
+    records are (name, seq, qual). Written from the format specification, not with dnaio."""
+    import struct
+
+    out = [b"BAM\1", struct.pack("<i", len(BAM_HEADER_TEXT)), BAM_HEADER_TEXT, struct.pack("<i", 0)]
+    for name, seq, qual in records:
+        rn = name.encode("ascii") + b"\0"
+        n = len(seq)
+        packed = bytearray((n + 1) // 2)
+        for i, c in enumerate(seq):
+            v = _BAM_CODES.get(c.upper(), 15)
+            packed[i // 2] |= (v << 4) if i % 2 == 0 else v
+        q = bytes(ord(c) - 33 for c in qual) if qual is not None else b"\xff" * n
+        body = struct.pack("<iiBBHHHiiii", -1, -1, len(rn), 0, 4680, 0, 4 | (64 if False else 0), n, -1, -1, 0) + rn + bytes(packed) + q
+        out.append(struct.pack("<i", len(body)) + body)
+    return b"".join(out)
+
+
+def parse_bam_strict(data):
+    """The uncompressed BAM stream -> list of (name, seq, qual); FormatError when the header or a
+    record is incomplete or inconsistent."""
+    import struct
+
+    if data[:4] != b"BAM\1":
+        raise FormatError("BAM: bad magic")
+    pos = 4
+    try:
+        (l_text,) = struct.unpack_from("<i", data, pos)
+        pos += 4 + l_text
+        (n_ref,) = struct.unpack_from("<i", data, pos)
+        pos += 4
+        for _ in range(n_ref):
+            (l_name,) = struct.unpack_from("<i", data, pos)
+            pos += 4 + l_name + 4
+        if pos > len(data) or l_text < 0 or n_ref < 0:
+            raise FormatError("BAM: header incomplete")
+        recs = []
+        while pos < len(data):
+            (block,) = struct.unpack_from("<i", data, pos)
+            if block < 32 or pos + 4 + block > len(data):
+                raise FormatError("BAM: incomplete record at the end")
+            l_name, = struct.unpack_from("<B", data, pos + 12)
+            n_cigar, = struct.unpack_from("<H", data, pos + 16)
+            l_seq, = struct.unpack_from("<i", data, pos + 20)
+            p = pos + 36
+            name = data[p : p + l_name - 1].decode("ascii")
+            p += l_name + 4 * n_cigar
+            packed = data[p : p + (l_seq + 1) // 2]
+            p += (l_seq + 1) // 2
+            q = data[p : p + l_seq]
+            if p + l_seq > pos + 4 + block or l_seq < 0:
+                raise FormatError("BAM: record fields exceed its block size")
+            seq = "".join(_BAM_LETTERS[(packed[i // 2] >> 4) if i % 2 == 0 else (packed[i // 2] & 15)] for i in range(l_seq))
+            qual = None if (l_seq and q[0] == 255) else "".join(chr(c + 33) for c in q)
+            recs.append((name, seq, qual))
+            pos += 4 + block
+        return recs
+    except (struct.error, UnicodeDecodeError) as e:
+        raise FormatError(f"BAM: {e}")
+
+
 def parse_fastq_strict(data):
     """
     The strict grammar dnaio accepts (probed, see DESIGN §5/C12): 4-line records, '@' and '+'
